@@ -274,28 +274,50 @@ func C12(r *core.Run) {
 		if len(res.NoAnswer) == 0 {
 			continue
 		}
-		kind := res.NoAnswer[0]
-		if kindTried[kind] >= 3 || kindConfirmed[kind] {
+		kind := ""
+		for _, k := range res.NoAnswer {
+			if kindTried[k] < 3 && !kindConfirmed[k] {
+				kind = k
+				break
+			}
+		}
+		if kind == "" {
 			continue
 		}
 		kindTried[kind]++
 		rr := run([]c12Case{all[res.ID]}, 1, 1, 2)
-		if len(rr) == 1 && len(rr[0].NoAnswer) > 0 {
-			kindConfirmed[kind] = true
+		if len(rr) == 1 {
+			for _, k := range rr[0].NoAnswer {
+				if k == kind {
+					kindConfirmed[kind] = true
+				}
+			}
 		}
 	}
 	for _, res := range results {
 		c := all[res.ID]
 		seen[res.ID] = true
-		if len(res.NoAnswer) > 0 && !kindConfirmed[res.NoAnswer[0]] {
-			r.Inconclusive(fmt.Sprintf("case %s missed a progress bound (%v) that was not missed again when such cases were re-run alone", c.ID, res.NoAnswer))
+		if len(res.NoAnswer) > 0 {
+			// keep only the missed bounds of a kind that was missed again alone
+			dropped := false
 			var keep []string
 			for _, v := range res.Violations {
-				if !strings.HasPrefix(v, "C12:no-answer") && !strings.HasPrefix(v, "C12:backend-not-closed") {
-					keep = append(keep, v)
+				kind := ""
+				if strings.HasPrefix(v, "C12:no-answer:") {
+					kind = strings.SplitN(strings.TrimPrefix(v, "C12:no-answer:"), "|", 2)[0]
+				} else if strings.HasPrefix(v, "C12:backend-not-closed") {
+					kind = "backend-close-observation"
 				}
+				if kind != "" && !kindConfirmed[kind] {
+					dropped = true
+					continue
+				}
+				keep = append(keep, v)
 			}
 			res.Violations = keep
+			if dropped {
+				r.Inconclusive(fmt.Sprintf("case %s missed a progress bound (%v) that was not missed again when such cases were re-run alone", c.ID, res.NoAnswer))
+			}
 		}
 		r.Add("oracle_evaluations_skipped_after_repeated_misses", res.Unjudged)
 		switch c.Kind {
